@@ -300,15 +300,25 @@ func (w *world) oracle(entry string, wire []byte, rec *ipns.Record, nk *kit.Key,
 	if len(v.Bytes[kit.FValue]) == 0 && len(v.Bytes[kit.FSignatureV1]) == 0 {
 		gate = "empty-value-and-sigv1"
 	}
+	// With a non-empty value or signatureV1 the record claims v1 compatibility:
+	// every legacy field must then agree with the signed data, and a field that
+	// was deleted reads as its protobuf default (empty / 0), which disagrees
+	// with a non-default signed value. Without value and signatureV1 (the
+	// recorded finding's gate) absent fields are the normal v2-only form and
+	// only fields that are present are compared.
 	legacy := func(n int, bad bool, exp, obs string) {
-		if !v.Has[n] || !bad {
+		if !bad || (!v.Has[n] && gate != "checked") {
 			return
 		}
 		class := "legacy-mismatch-accepted/" + gate
 		if gate == "checked" {
 			class += "/" + kit.FieldNames[n]
+			if !v.Has[n] {
+				class += "-absent"
+				obs = "(field absent: protobuf default)"
+			}
 		}
-		fail(class, "accept => every legacy protobuf field present equals the signed value", kit.FieldNames[n]+"="+exp, kit.FieldNames[n]+"="+obs)
+		fail(class, "accept => every legacy protobuf field equals the signed value (absent = protobuf default when value or signatureV1 is present)", kit.FieldNames[n]+"="+exp, kit.FieldNames[n]+"="+obs)
 	}
 	legacy(kit.FValue, !kit.Equal(v.Bytes[kit.FValue], []byte(s.Value.String())), fmt.Sprintf("%q", s.Value.String()), fmt.Sprintf("%q", v.Bytes[kit.FValue]))
 	legacy(kit.FValidityType, int32(v.Int[kit.FValidityType]) != 0, "0", fmt.Sprint(v.Int[kit.FValidityType]))
@@ -445,6 +455,9 @@ func (m *mutCtx) one(fs []kit.Field) (desc, feat string, out []kit.Field, ok boo
 		return "replace " + name(n) + " by random bytes of the same length", name(n) + ":random", fs, true
 	case kind < 42: // clear
 		n := 1 + r.Intn(9)
+		if r.Bool() { // favour deleting a single legacy field (reads as its default afterwards)
+			n = vlib.Pick(r, []int{kit.FValue, kit.FValidityType, kit.FValidity, kit.FSequence, kit.FTTL, kit.FSignatureV1})
+		}
 		if kit.IndexOf(fs, n) < 0 {
 			return
 		}
